@@ -65,6 +65,8 @@ PROP = [  # (subject fragment, property ids, key that used to be reported)
  ("a commit hyperlink could be inserted inside the URL of a hyperlink the line already had", 'C09', "c09:malformed:passthrough (control character inside OSC; the terminal model did not flag an ESC inside an OSC string before)"),
  ("a file whose name contains '{line}' or '{host}' got a hyperlink to another path", 'C19', "c19:file-target (found from a sub-agent's note)"),
  ("hunks of a deleted file were not highlighted in the file's language", 'C15', "c15:rename:colouring-depends-on-name (deleted foo.rs vs the same lines removed from foo.rs; found from a sub-agent's note; sub-check added)"),
+ ("a wide character in a line-number format made side-by-side rows overflow", 'C07', "c07:truncated-* / row-width (number formats holding a double-width character; found from a sub-agent's note)"),
+ ("with --hyperlinks the file path was printed in place of the line number when the absolute path is unknown", 'C19,C05', "(delta started in a directory that has been removed; found from a sub-agent's note, not generated by a check)"),
  ("lines differing by a zero-width character were paired at --max-line-distance 0", 'C06', "c06:distance-0-pairing / :sbs ('<U+0308>key' paired with ' key   ' at distance 0; found by the thorough tier)"),
 ]
 log = subprocess.run(['git', '-C', '/repo', 'log', '--format=%H%x09%s', '--reverse'], stdout=subprocess.PIPE).stdout.decode().splitlines()
